@@ -287,7 +287,57 @@ def oracle_collect_cli(args):
         shutil.rmtree(tmp, ignore_errors=True)
 
 
-ORACLES = {"script": oracle_script, "collect_cli": oracle_collect_cli}
+@safe_oracle
+def oracle_mem_script(args):
+    """the in-memory store against the plain-list specification under clone-then-diverge histories: after any sequence of
+    collect / hop / frustrated hop / collapse-type events / clone over several handles, every handle holds exactly the
+    snapshots and events recorded through it (plus what its source held when it was cloned): nothing leaks between a
+    clone and its original, in either direction"""
+    from mudslide.tracer import InMemoryTrace
+    rng = np.random.Generator(np.random.PCG64(args["seed"]))
+    hs = [InMemoryTrace()]
+    spec = [{"snaps": [], "hops": [], "events": {}}]
+    sid = 0
+    problems = []
+    for op in args["ops"]:
+        kind, h = op[0], op[1]
+        if kind == "col":
+            sn = make_snapshot(rng, sid); sid += 1
+            hs[h].collect(sn); spec[h]["snaps"].append(sn)
+        elif kind == "hop":
+            e = (float(sid), 0, 1, float(rng.random()), float(rng.random()))
+            hs[h].hop(*e)
+            spec[h]["hops"].append({"event": "hop", "time": e[0], "from": 0, "to": 1, "zeta": e[3], "prob": e[4]})
+        elif kind == "fr":
+            e = (float(sid), 1, 0, float(rng.random()), float(rng.random()))
+            hs[h].frustrated_hop(*e)
+            spec[h]["events"].setdefault("frustrated_hop", []).append(
+                {"event": "frustrated_hop", "time": e[0], "from": 1, "to": 0, "zeta": e[3], "prob": e[4]})
+        elif kind == "ev":
+            d = {"time": float(sid), "removed": [1], "gamma": float(rng.random())}
+            hs[h].record_event(op[2], dict(d))
+            spec[h]["events"].setdefault(op[2], []).append(d)
+        elif kind == "clone":
+            hs.append(hs[h].clone())
+            spec.append({"snaps": list(spec[h]["snaps"]), "hops": list(spec[h]["hops"]),
+                         "events": {k: list(v) for k, v in spec[h]["events"].items()}})
+        # after EVERY op every handle must equal its specification
+        for j, (t, sp) in enumerate(zip(hs, spec)):
+            if len(t) != len(sp["snaps"]) or not all(same_snapshot(g, r) for g, r in zip(list(t), sp["snaps"])):
+                problems.append("after %r: handle %d holds %d snapshots, %d were recorded through it" % (op, j, len(t), len(sp["snaps"])))
+            hops = [{k: v for k, v in e.items()} for e in t.hops]
+            if [(e["time"], e["zeta"]) for e in hops] != [(e["time"], e["zeta"]) for e in sp["hops"]]:
+                problems.append("after %r: handle %d has %d hop events, specification %d" % (op, j, len(hops), len(sp["hops"])))
+            got = {k: [e["time"] for e in v] for k, v in t.events.items() if v}
+            want = {k: [e["time"] for e in v] for k, v in sp["events"].items() if v}
+            if got != want:
+                problems.append("after %r: handle %d events %r, specification %r" % (op, j, got, want))
+        if problems:
+            break
+    return not problems, {"handles": len(hs), "problems": problems[:3]}, {"problems": []}, "; ".join(problems[:2]) or "ok"
+
+
+ORACLES = {"script": oracle_script, "collect_cli": oracle_collect_cli, "mem_script": oracle_mem_script}
 
 
 def run(ctx):
@@ -309,6 +359,14 @@ def run(ctx):
                                                                        ("get", 1, -1), ("get", 1, pitch * mult), ("clone", 1),
                                                                        ("col", 2), ("iter", 2), ("iter", 1), ("dir",)]
             scripts.append(ops)
+    # directed: more than ten pages (page names log_10, log_11, ... after log_9), reload, index from both ends, append, reload
+    for pitch, n in ((1, 12), (1, 23), (2, 23), (2, 26), (3, 34)):
+        if not ctx.thorough() and (pitch, n) in ((2, 26), (3, 34)):
+            continue
+        scripts.append([("new", pitch)] + [("col", 0)] * n + [("load", 0), ("len", 1), ("iter", 1), ("get", 1, -1), ("get", 1, -2),
+                                                            ("get", 1, n - 1), ("get", 1, 10 * pitch), ("get", 1, 2 * pitch),
+                                                            ("col", 1), ("col", 1), ("load", 1), ("len", 2), ("iter", 2),
+                                                            ("get", 2, -1), ("clone", 2), ("iter", 3), ("dir",)])
     outs = ctx.model.run([script_line(ops) for ops in scripts])
     for ops, o in zip(scripts, outs):
         seed = int(rng.integers(1, 2 ** 31))
@@ -334,6 +392,29 @@ def run(ctx):
         if problems:
             ctx.oracle_fail("trace-store", "script", {"ops": [list(x) for x in ops], "seed": seed},
                             {"problems": problems[:4]}, {"problems": []}, "; ".join(problems[:3]))
+    # in-memory store: clone-then-diverge histories with events of types that already exist at the clone
+    for i in range(ctx.budget(30, 1000)):
+        ops, nh = [], 1
+        for _ in range(int(rng.integers(6, 40))):
+            h = int(rng.integers(0, nh))
+            r = rng.random()
+            if r < 0.35:
+                ops.append(["col", h])
+            elif r < 0.5:
+                ops.append(["hop", h])
+            elif r < 0.65:
+                ops.append(["fr", h])
+            elif r < 0.8:
+                ops.append(["ev", h, str(rng.choice(["collapse", "custom"]))])
+            elif nh < 5:
+                ops.append(["clone", h]); nh += 1
+        a = {"seed": int(rng.integers(1, 2 ** 31)), "ops": ops}
+        ok, obs, req, text = oracle_mem_script(a)
+        ctx.case(("mem-script", nh, len(ops) // 10))
+        ctx.count("mem_scripts")
+        ctx.count("mem_clones", nh - 1)
+        if not ok:
+            ctx.oracle_fail("in-memory-store", "mem_script", a, obs, req, text)
     for i in range(ctx.budget(6, 100)):
         a = {"seed": int(rng.integers(1, 2 ** 31)), "pitch": int(rng.integers(1, 6)), "n": int(rng.integers(1, 14)),
              "keys": ["tkpea", "te", "a", "kp", "etk"][i % 5]}
